@@ -3,6 +3,8 @@ CONSTANTS
   F <- F_asis
   PreSet <- NoPre
   KindSet <- AllKinds
+  Deep = FALSE
+  RaceSet <- NoRace
 INIT Init
 NEXT Next
 INVARIANTS TypeOK NoForeignRelayed
